@@ -250,7 +250,7 @@ func runC02(c *core.Ctx) {
 		p := fn.Pkg.Pkg.Path()
 		return strings.HasSuffix(p, "/type/value") || strings.HasSuffix(p, "/meta/signature") || strings.HasSuffix(p, "/type/basic") || strings.HasSuffix(p, core.WitnessDirName)
 	})
-	c.Doc("C02.limits", "size-limit comparisons accept the limit itself (encoder/decoder/reader agree)", 8)
+	c.Doc("C02.limits", "size-limit comparisons accept the limit itself (encoder/decoder/reader agree)", 5)
 	ruleLimitComparisons(c, "C02.limits")
 }
 
